@@ -126,7 +126,7 @@ def run_longhist(spec, res, prop):
             if not access(b, rng.random() < 0.3, rng.getrandbits(32)):
                 return
         # hot phase: a few blocks used in turn, the rest of the set idle
-        hot = rng.sample(bl, rng.choice([1, 2, 2, 2, 3]))
+        hot = rng.sample(bl, 2 if first_phase else rng.choice([1, 2, 2, 2, 3]))
         L = hotmax if first_phase else rng.choice([3, 17, 130, 255, 256, 257, 300, 515, min(hotmax, 1030)])
         first_phase = False
         for i in range(min(L, n - done + 8)):
@@ -134,8 +134,19 @@ def run_longhist(spec, res, prop):
             if not access(b, rng.random() < 0.25, i):
                 return
         res.count("long_history_hot_phases")
-        # conflict misses, then every block of the set once more (a wrong victim shows as a miss / a stale value)
-        for b in rng.sample(bl, rng.randint(1, 3)) + rng.sample(bl, len(bl) if len(bl) <= 12 else 12):
+        # conflict misses: the ways they fill are the policy's victims (resident tags way by way, as the public cache
+        # representation shows them, against the reference cache) ...
+        for b in rng.sample(bl, rng.randint(1, 3)):
+            if not access(b, False, 0):
+                return
+        if assoc <= 16:
+            res.count("long_history_tag_checks")
+            tags_real = resident_view(m)[0]
+            if tags_real != ref.resident_tags():
+                res.violation("C10", "displaced-way", "long history (%r): after access #%d (a hot phase of %d accesses on %d blocks, then conflict misses) the resident tags by way are %r, the %s reference for this access history gives %r" % (cfg, done, L, len(hot), tags_real, policy, ref.resident_tags()), case)
+                return
+        # ... then every block of the set once more (a wrong victim also shows as a miss / a stale value)
+        for b in rng.sample(bl, len(bl) if len(bl) <= 12 else 12):
             if not access(b, False, 0):
                 return
         if assoc > 256:
